@@ -99,7 +99,7 @@ func structFields(f *ast.File, name string) []string {
 	return out
 }
 
-func coqStrList(xs []string) string {
+func coqStrListFlood(xs []string) string {
 	ss := make([]string, len(xs))
 	for i, x := range xs {
 		ss[i] = coqString(x) + "%string"
@@ -186,7 +186,7 @@ func nz(v int64) int64 {
 func genC11(g *gen) {
 	f := parseFile(floodGo)
 	g.line("Local Open Scope string_scope.")
-	g.line("Definition gen_seen_key_fields : list string := %s.", coqStrList(structFields(f, "AdvertisementKey")))
+	g.line("Definition gen_seen_key_fields : list string := %s.", coqStrListFlood(structFields(f, "AdvertisementKey")))
 	h := findFunc(f, "Flooder", "HandleRouteAdvertise")
 	// the key is built from (originAgent, sequence)
 	keyOrigin := compositeField(h, "AdvertisementKey", "OriginAgent")
@@ -270,7 +270,7 @@ func genC12(g *gen) {
 	g.line("Local Open Scope string_scope.")
 	// agent.handleRouteAdvertise hands the decoded fields to the flooder in this order
 	hr := findFunc(fa, "Agent", "handleRouteAdvertise")
-	g.line("Definition gen_handle_route_advertise_args : list string := %s.", coqStrList(callArgs(hr, "a.flooder.HandleRouteAdvertise")))
+	g.line("Definition gen_handle_route_advertise_args : list string := %s.", coqStrListFlood(callArgs(hr, "a.flooder.HandleRouteAdvertise")))
 	dec := hasNode(hr, func(n ast.Node) bool { return isStmtText(n, "adv, err := protocol.DecodeRouteAdvertise(frame.Payload)") })
 	g.line("Definition gen_handle_route_advertise_decodes_payload : bool := %s.", coqBool(dec))
 	// handleStreamOpen: exit test, next hop, remaining path
@@ -507,7 +507,7 @@ func genC13(g *gen) {
 func genC14(g *gen) {
 	ff := parseFile(floodGo)
 	g.line("Local Open Scope string_scope.")
-	g.line("Definition gen_replay_key_fields : list string := %s.", coqStrList(structFields(ff, "replayKey")))
+	g.line("Definition gen_replay_key_fields : list string := %s.", coqStrListFlood(structFields(ff, "replayKey")))
 	rk := findFunc(ff, "Flooder", "replayKeyFor")
 	own := hasNode(rk, func(n ast.Node) bool {
 		is, ok := n.(*ast.IfStmt)
